@@ -1,0 +1,41 @@
+//go:build verif
+
+package quickfix
+
+import (
+	"time"
+
+	"github.com/quickfixgo/quickfix/internal"
+)
+
+// VerifTimeRange gives the verification harness (/verif, area timerange) access to internal.TimeRange,
+// which cannot be imported from outside this module.
+type VerifTimeRange struct{ r *internal.TimeRange }
+
+// VerifNewTimeRangeInLocation wraps internal.NewTimeRangeInLocation (daily schedule); times are (hour, minute, second).
+func VerifNewTimeRangeInLocation(start, end [3]int, weekdays []time.Weekday, loc *time.Location) (*VerifTimeRange, error) {
+	r, err := internal.NewTimeRangeInLocation(
+		internal.NewTimeOfDay(start[0], start[1], start[2]),
+		internal.NewTimeOfDay(end[0], end[1], end[2]), weekdays, loc)
+	if err != nil {
+		return nil, err
+	}
+	return &VerifTimeRange{r: r}, nil
+}
+
+// VerifNewWeekRangeInLocation wraps internal.NewWeekRangeInLocation (weekly schedule).
+func VerifNewWeekRangeInLocation(start, end [3]int, startDay, endDay time.Weekday, loc *time.Location) (*VerifTimeRange, error) {
+	r, err := internal.NewWeekRangeInLocation(
+		internal.NewTimeOfDay(start[0], start[1], start[2]),
+		internal.NewTimeOfDay(end[0], end[1], end[2]), startDay, endDay, loc)
+	if err != nil {
+		return nil, err
+	}
+	return &VerifTimeRange{r: r}, nil
+}
+
+// IsInRange wraps (*internal.TimeRange).IsInRange.
+func (v *VerifTimeRange) IsInRange(t time.Time) bool { return v.r.IsInRange(t) }
+
+// IsInSameRange wraps (*internal.TimeRange).IsInSameRange.
+func (v *VerifTimeRange) IsInSameRange(t1, t2 time.Time) bool { return v.r.IsInSameRange(t1, t2) }
